@@ -179,7 +179,9 @@ class SpecEnv(object):
       g["_universe"] = uni
       for name, text in contract.defs.items():
         if callable(text):
-          g[name] = getattr(text, "native", None)
+          nat = getattr(text, "native", None)
+          if nat is not None: g[name] = nat
+          # otherwise the environment itself must supply the concrete meaning
         else:
           c = compiled(text)
           g[name] = eval(c.code, g)        # a lambda closing over this namespace (dynamic names)
